@@ -50,7 +50,7 @@ static atomic_long hold_exits_ok, hold_exits_nothold, queries, odd_status;
 /* service-thread-only state */
 static uint64_t rs; static uint64_t srnd(void) { rs ^= rs >> 12; rs ^= rs << 25; rs ^= rs >> 27; return rs * 2685821657736338717ULL; }
 static uint8_t input[1 << 16]; static size_t inlen, inpos; static long out_bytes, write_refusals; static unsigned p_write = 70;
-static long holds_entered, lockfree_queries_in_handlers, bad_lockfree, event_handler_chains;
+static long input_batches, holds_entered, lockfree_queries_in_handlers, bad_lockfree, event_handler_chains;
 /* what the host sees is one byte stream: the producer (event machine in hook phase 1, command machine in phase 2) may change only behind a newline */
 static long wire_torn; static int last_producer; static char last_byte = '\n';
 static int io_write(char c)
@@ -87,9 +87,10 @@ static cat_return_state ev_handler(const struct cat_command *cmd, uint8_t *d, si
 }
 /* variable read callback of the event commands: fails now and then; a READ event whose variable cannot be read ends there (it counts as delivered: it was consumed, once) */
 static long var_read_failures;
+static struct cat_variable v3[2], v6[2];
 static int var_read(const struct cat_variable *v)
 {
-        int p = (int)(v - vars);
+        int p = v == &v3[0] ? 3 : v == &v6[0] ? 6 : (int)(v - vars);
         bool fail = srnd() % 8 == 0;
         if (fail) var_read_failures++;
         if (phase == 1 && p < MAXP && (fail || cmds[p].read == NULL)) atomic_fetch_add(&delivered[p], 1);      /* a command without handlers: its READ event is delivered when its variable is read */
@@ -97,7 +98,7 @@ static int var_read(const struct cat_variable *v)
 }
 static cat_return_state help_run(const struct cat_command *cmd) { (void)cmd; return CAT_RETURN_STATE_PRINT_CMD_LIST_OK; }
 static cat_return_state hold_run(const struct cat_command *cmd) { (void)cmd; if (srnd() % 3 == 0) { holds_entered++; return CAT_RETURN_STATE_HOLD; } return CAT_RETURN_STATE_OK; }
-static cat_return_state wr_handler(const struct cat_command *cmd, const uint8_t *d, size_t n, size_t a) { (void)cmd; (void)d; (void)n; (void)a; return CAT_RETURN_STATE_OK; }
+static cat_return_state wr_handler(const struct cat_command *cmd, const uint8_t *d, size_t n, size_t a) { (void)cmd; (void)d; (void)a; if (n > 40 && srnd() % 3 == 0) { holds_entered++; return CAT_RETURN_STATE_HOLD; } return CAT_RETURN_STATE_OK; }      /* a held command with a long argument text: the command machine's cursor stays far into its buffer for the whole hold */
 
 struct parg { int id; uint64_t seed; long triggers; };
 static void *producer(void *vp)
@@ -108,7 +109,7 @@ static void *producer(void *vp)
                 unsigned r = (unsigned)(PR() % 100);
                 if (r < 60) {
                         cat_status st; unsigned k = (unsigned)(PR() % 3);
-                        if (pa->id == 2) k = 1;
+                        if (pa->id == 2 || pa->id == 3 || pa->id == 6) k = 1;      /* READ events only: the TEST text of a two-variable command does not fit the small event buffer of the odd seeds */
                         if (k == 0) st = cat_trigger_unsolicited_event(&at, &cmds[pa->id], (PR() & 1) ? CAT_CMD_TYPE_READ : CAT_CMD_TYPE_TEST);
                         else if (k == 1) st = cat_trigger_unsolicited_read(&at, &cmds[pa->id]);
                         else st = cat_trigger_unsolicited_test(&at, &cmds[pa->id]);
@@ -154,20 +155,25 @@ int main(int argc, char **argv)
                 cmds[p].name = names[p]; cmds[p].read = ev_handler; cmds[p].test = ev_handler;
                 vars[p].type = CAT_VAR_UINT_DEC; vars[p].data = &vdata[p]; vars[p].data_size = 1; vars[p].read = var_read; cmds[p].var = &vars[p]; cmds[p].var_num = 1;
         }
+        /* two of the event commands carry a second variable of a buffer type (their READ text still fits the smallest event buffer used) */
+        static char str3[13] = "abcdefghijkl"; static uint8_t hex6[4] = { 1, 2, 3, 4 };
+        v3[0] = vars[3]; v3[1].type = CAT_VAR_BUF_STRING; v3[1].data = str3; v3[1].data_size = sizeof str3; cmds[3].var = v3; cmds[3].var_num = 2;
+        v6[0] = vars[6]; v6[1].type = CAT_VAR_BUF_HEX; v6[1].data = hex6; v6[1].data_size = sizeof hex6; cmds[6].var = v6; cmds[6].var_num = 2;
         /* flags that concern command lines only: events of these commands are accepted and delivered like any other */
         cmds[1].disable = true; cmds[5].disable = true;
         cmds[2].read = NULL; cmds[2].test = NULL; cmds[2].implicit_write = true;      /* producer 2 raises READ events only (see producer()) */
         cmds[MAXP].name = "+HOLD"; cmds[MAXP].run = hold_run;
-        cmds[MAXP + 1].name = "+W"; cmds[MAXP + 1].write = wr_handler;
+        cmds[MAXP + 1].name = "+W"; cmds[MAXP + 1].write = wr_handler;      /* its arguments are decoded into a string variable: while the command is held the command machine's cursor stays behind the last argument */
+        { static char wstr[120]; vars[MAXP + 1].type = CAT_VAR_BUF_STRING; vars[MAXP + 1].data = wstr; vars[MAXP + 1].data_size = sizeof wstr; cmds[MAXP + 1].var = &vars[MAXP + 1]; cmds[MAXP + 1].var_num = 1; }
         cmds[MAXP + 2].name = "+HELP"; cmds[MAXP + 2].run = help_run;      /* the command list walks the whole table, one step per service call */
         cmds[MAXP + 3].name = "+LONG"; vars[MAXP + 3].type = CAT_VAR_BUF_HEX; vars[MAXP + 3].data = longdata; vars[MAXP + 3].data_size = sizeof longdata; cmds[MAXP + 3].var = &vars[MAXP + 3]; cmds[MAXP + 3].var_num = 1;      /* a response longer than the small event buffer of the odd seeds */
         static struct cat_command_group g = { .cmd = cmds, .cmd_num = MAXP + 4 }; static struct cat_command_group *gp[] = { &g };
         static uint8_t buf[128], ubuf[24]; static struct cat_descriptor desc = { .cmd_group = gp, .cmd_group_num = 1, .buf = buf, .buf_size = sizeof buf };
         if (seed & 1) { desc.unsolicited_buf = ubuf; desc.unsolicited_buf_size = sizeof ubuf; }      /* odd seeds: a separate event buffer, much smaller than the command buffer (every event text of this table still fits) */
         /* command traffic for the service thread */
-        static const char *lines[] = { "AT+HOLD\n", "AT+W=abc\r\n", "AT+P0?\n", "AT+P1=?\n", "AT\n", "AT+NOPE\n", "AT+P2=5\n", "AT+HELP\n", "AT+LONG?\r\n", "AT+LONG=00112233445566778899aabbccddeeff\n" };
-        long nl = 40 + (long)(srnd() % 200);
-        for (long l = 0; l < nl; l++) { const char *s = lines[srnd() % 10]; size_t n = strlen(s); if (inlen + n < sizeof input) { memcpy(input + inlen, s, n); inlen += n; } }
+        static const char *lines[] = { "AT+W=\"01234567890123456789012345678901234567890123456789012345\"\n", "AT+W=\"0123456789012345678901234567890123456789012345678901234567890123456789012345678901234567890123456789012345678901234567\"\r\n", "AT+HOLD\n", "AT+W=\"abc\"\r\n", "AT+P0?\n", "AT+P1=?\n", "AT\n", "AT+NOPE\n", "AT+P2=5\n", "AT+HELP\n", "AT+LONG?\r\n", "AT+LONG=00112233445566778899aabbccddeeff\n" };
+#define GEN_INPUT() do { long nl = 40 + (long)(srnd() % 200); inlen = inpos = 0; for (long l = 0; l < nl; l++) { const char *s = lines[srnd() % 12]; size_t n = strlen(s); if (inlen + n < sizeof input) { memcpy(input + inlen, s, n); inlen += n; } } input_batches++; } while (0)
+        GEN_INPUT();
         { pthread_mutexattr_t ma; pthread_mutexattr_init(&ma); pthread_mutexattr_settype(&ma, PTHREAD_MUTEX_ERRORCHECK); pthread_mutex_init(&mtx, &ma); }
         cat_init(&at, &desc, &io, &mutex);
         pthread_t th[MAXP], by; struct parg pa[MAXP];
@@ -184,7 +190,10 @@ int main(int argc, char **argv)
                         p_write = 100;
                         (void)cat_hold_exit(&at, CAT_STATUS_OK);                       /* finish any hold nobody released */
                         if (s == CAT_STATUS_OK && inpos >= inlen) { if (++quiet > 3) break; } else quiet = 0;
-                } else if ((services & 63) == 0) sched_yield();
+                } else {
+                        if ((services & 63) == 0) sched_yield();
+                        if (inpos >= inlen && s == CAT_STATUS_OK) GEN_INPUT();      /* command traffic for as long as the producers are at work */
+                }
                 if ((services & 0xfffff) == 0) { struct timespec t1; clock_gettime(CLOCK_MONOTONIC, &t1); if (t1.tv_sec - t0.tv_sec > 240) { fprintf(stderr, "WATCHDOG\n"); return 3; } }
         }
         for (int p = 0; p < P; p++) pthread_join(th[p], NULL);
@@ -193,9 +202,9 @@ int main(int argc, char **argv)
         for (int p = 0; p < P; p++) { long a = atomic_load(&accepted[p]), d = atomic_load(&delivered[p]); acc += a; del += d; ref += atomic_load(&refused[p]); if (a != d) bad++; }
         printf("{\"producers\":%d,\"cap\":%d,\"seed\":%llu,\"triggers_per_producer\":%ld,\"accepted\":%ld,\"refused_full\":%ld,\"delivered\":%ld,\"producers_with_mismatch\":%d,"
                "\"lock_calls\":%ld,\"handovers\":%ld,\"contended_locks\":%ld,\"service_calls\":%ld,\"holds_entered\":%ld,\"hold_exits_ok\":%ld,\"hold_exits_not_hold\":%ld,\"queries\":%ld,"
-               "\"write_refusals\":%ld,\"lockfree_queries_in_handlers\":%ld,\"bad_lockfree\":%ld,\"lock_failures\":%ld,\"odd_status\":%ld,\"unlock_errors\":%ld,\"frozen_checks\":%ld,\"frozen_violations\":%ld,\"var_read_failures\":%ld,\"event_handler_chains\":%ld,\"wire_torn\":%ld,\"per_producer\":[",
+               "\"write_refusals\":%ld,\"lockfree_queries_in_handlers\":%ld,\"bad_lockfree\":%ld,\"lock_failures\":%ld,\"odd_status\":%ld,\"unlock_errors\":%ld,\"frozen_checks\":%ld,\"frozen_violations\":%ld,\"var_read_failures\":%ld,\"event_handler_chains\":%ld,\"wire_torn\":%ld,\"input_batches\":%ld,\"per_producer\":[",
                P, (int)CAT_UNSOLICITED_CMD_BUFFER_SIZE, (unsigned long long)seed, T, acc, ref, del, bad, lock_calls, handovers, atomic_load(&contended), services, holds_entered,
-               atomic_load(&hold_exits_ok), atomic_load(&hold_exits_nothold), atomic_load(&queries), write_refusals, lockfree_queries_in_handlers, bad_lockfree, atomic_load(&lock_failures), atomic_load(&odd_status), atomic_load(&unlock_errors), atomic_load(&frozen_checks), atomic_load(&frozen_violations), var_read_failures, event_handler_chains, wire_torn);
+               atomic_load(&hold_exits_ok), atomic_load(&hold_exits_nothold), atomic_load(&queries), write_refusals, lockfree_queries_in_handlers, bad_lockfree, atomic_load(&lock_failures), atomic_load(&odd_status), atomic_load(&unlock_errors), atomic_load(&frozen_checks), atomic_load(&frozen_violations), var_read_failures, event_handler_chains, wire_torn, input_batches);
         for (int p = 0; p < P; p++) printf("%s[%ld,%ld,%ld]", p ? "," : "", atomic_load(&accepted[p]), atomic_load(&refused[p]), atomic_load(&delivered[p]));
         printf("]}\n");
         return (bad || atomic_load(&odd_status) || atomic_load(&unlock_errors) || atomic_load(&frozen_violations) || wire_torn) ? 1 : 0;
